@@ -1,9 +1,11 @@
 import Verif.Proofs.Step
 import Verif.Facts.CpuNow
 import Verif.Facts.CpuEntries
+import Verif.Props.C03Run
 /-
   C03 — Per-address access numbers are the program's true fetch/read/write frequencies
-  (instruction level; the per-address totals of a run on the counting memory models are in C06).
+  (instruction level here; the run level — the counter of every address grows by exactly the accesses the
+  executed instructions issued — is `C03_run` in C03Run.lean; that the real memories count per physical byte is C06).
   Depends on the regenerated fact `implemented_entry` only.
 -/
 namespace Verif.Props.C03
